@@ -253,7 +253,7 @@ def scripts(rng, tier):
     b256 = buckets(256)
     b1024 = buckets(1024)
     n = 0
-    for rep in range(6 if quick else 60):
+    for rep in range(24 if quick else 90):
         # all keys in one home slot (also after growth: same home modulo 1024)
         h = rng.choice([0, 1, 127, 128, 200, 254, 255, rng.randrange(256)])
         cnt = rng.choice([3, 8, 40, 127, 128, 129, 140])
@@ -284,8 +284,22 @@ def scripts(rng, tier):
         if rng.random() < 0.5:
             g.dele(ks[1]); g.check_all()
         out.append(('d05b:%d' % n, g.finish())); n += 1
+    # --- exact fill levels around the load-factor threshold (and what would be a completely full table) ---
+    for lvl in (191, 192, 193, 255, 256, 257):
+        base = rng.randrange(20000)
+        ks = ['k%d' % (base + j) for j in range(lvl)]
+        g = Gen(rng, ks, seq_every=0)
+        for k in ks:
+            g.put(k)
+        g.L.append('len'); g.L.append('seq'); g.L.append('iterate')
+        g.L.append('get %s' % ks[0]); g.L.append('get k999999')
+        if rng.random() < 0.5:
+            g.itr_walk()
+        else:
+            g.dele(ks[rng.randrange(lvl)]); g.L.append('seq'); g.check_all()
+        out.append(('fill:%d' % lvl, g.finish()))
     # --- growth 256 -> 512 -> 1024 ---
-    for rep in range(3 if quick else 20):
+    for rep in range(5 if quick else 24):
         pool = ['k%d' % rng.randrange(3000) for _ in range(rng.choice([450, 800]))]
         g = Gen(rng, pool, seq_every=rng.choice([25, 60]))
         for i, k in enumerate(pool):
@@ -301,7 +315,7 @@ def scripts(rng, tier):
             g.L.append('seq')
         out.append(('growth:%d' % rep, g.finish()))
     # --- random scripts ---
-    nr = 350 if quick else 7000
+    nr = 2500 if quick else 14000
     for i in range(nr):
         r = rng.random()
         if r < 0.5:
@@ -645,7 +659,7 @@ def spec(lines, out):
                 else:
                     if o != '= 0':
                         v.append(('iterator', '`%s` -> %s' % (ln, o)))
-                    if it['cur'] is not None:
+                    if it['cur'] is not None and it['cur'] in d:
                         d[it['cur']] = val
                     else:
                         return v      # which entry was written is unknown: stop checking this script
@@ -671,6 +685,9 @@ def spec(lines, out):
                                 it['cur'] = cand[0]; it['remaining'].discard(cand[0])
                             else:
                                 return v
+                    if it['cur'] not in d:
+                        v.append(('iterator', '`it rm` on %s, which is not a live key' % it['cur']))
+                        return v
                     expect_events(ev, removal_events(it['cur'], d[it['cur']]), ln, 'iterator remove')
                     del d[it['cur']]
                     it['removed'] = True
